@@ -978,6 +978,14 @@ def trigger_scenarios(quick=False):
                      ["--ff=PARSE", "--nodebump", "--noopt"]):
             t(f"input-{kind}:{' '.join(opts)}", dict(base, content={"kind": kind}, argv=opts))
     t("input-invalid-utf8", dict(base, content={"kind": "utf8", "at": 200}, argv=amber))
+    # the same through the mmCIF reader (chosen by the file-name extension)
+    cif = {"item": "1FAS.cif"}
+    for kind, spec in (("empty", {"kind": "empty"}), ("html", {"kind": "html"}),
+                       ("binary", {"kind": "binary"}), ("no-atom-rows", {"kind": "header"}),
+                       ("cut-in-header", {"kind": "short", "at": 3000}),
+                       ("cut-in-first-loop", {"kind": "short", "at": 700})):
+        for opts in (["--ff=PARSE"], ["--clean"], ["--ff=AMBER", "--assign-only"]):
+            t(f"cif-{kind}:{' '.join(opts)}", dict(cif, content=spec, argv=opts))
     # a coordinate that cannot be read makes the structure unreadable
     for rec, cols, text, nm in ((40, [30, 38], "  1X.123", "x"), (3, [38, 46], " ****** ", "y"),
                                 (77, [46, 54], "   n/a  ", "z"), (10, [30, 38], "        ", "blank-x")):
@@ -1071,6 +1079,22 @@ def trigger_scenarios(quick=False):
         t(f"ph-{ph}", dict(base, argv=["--ff=AMBER", f"--with-ph={ph}"]))
     t("ph-15-propka", dict(base, argv=["--ff=AMBER", "--titration-state-method=propka",
                                        "--with-ph=15"]))
+    # a pH that is not a number inside [0, 14] (NaN compares false with everything)
+    t("ph-nan", dict(base, argv=["--ff=AMBER", "--with-ph=nan"]))
+    t("ph-nan-propka", dict(base, argv=["--ff=PARSE", "--titration-state-method=propka",
+                                        "--with-ph=NaN"]))
+    t("ph-inf-propka", dict(base, argv=["--ff=AMBER", "--titration-state-method=propka",
+                                        "--with-ph=inf"]))
+    t("ph-not-a-number", dict(base, argv=["--ff=AMBER", "--with-ph=seven"]))
+    t("unknown-ffout", dict(base, argv=["--ff=AMBER", "--ffout=NOSUCHFF"]))
+    t("unknown-titration-method", dict(base, argv=["--ff=AMBER",
+                                                   "--titration-state-method=guess"]))
+    t("userff-is-directory", dict(base, argv=["--userff={userff}", "--usernames={usernames}"],
+                                  files={"userff": "<dir>", "usernames": "custom.names"}))
+    t("usernames-is-directory", dict(base, argv=["--userff={userff}", "--usernames={usernames}"],
+                                     files={"userff": "custom-ff.dat", "usernames": "<dir>"}))
+    t("ligand-is-directory", dict(base, argv=["--ff=AMBER", "--ligand={ligand}"],
+                                  files={"ligand": "<dir>"}))
     t("neutraln-with-tyl06", dict(base, argv=["--ff=TYL06", "--neutraln"]))
     t("neutralc-with-swanson", dict(base, argv=["--ff=SWANSON", "--neutralc"]))
     t("neutraln-neutralc-with-peoepb", dict(base, argv=["--ff=PEOEPB", "--neutraln", "--neutralc"]))
